@@ -328,8 +328,22 @@ class EqObligation(Obligation):
         # 2. interpreter cross-check against native execution (trusted-base sanity, every run)
         self._crosscheck(res, b, impl_l, seed, it)
         if res["crosscheck"] == "mismatch":
-            res["status"] = "error"
-            return
+            # triage: is it the interpreter, or does the code compute something else when it is traced than when it runs
+            # eagerly (a branch on `isinstance(x, Tracer)`, on a Python type that tracing changes, ...)?  JAX's own
+            # evaluation of the traced program decides: if it agrees with the interpreter, the interpreter is right and
+            # the eager run of the real code is compared with the contract directly.
+            tri = self._eager_vs_traced(b, impl_l, spec_l, seed, it)
+            if tri is None:
+                res["status"] = "error"
+                return
+            res["crosscheck"] = "ok (against JAX's own evaluation of the traced program); the eager run differs"
+            if tri.get("native_disagrees"):
+                res["status"] = "violated"
+                res["failure"] = "eager run differs from the traced program and from the contract"
+                res["detail"] = ("run eagerly on concrete inputs the code does not compute what it computes when traced, and the eager "
+                                 f"value violates the contract: native {tri['native']} expected {tri['expected']}")
+                res["replay"] = dict(tri, obligation=self.name)
+                return
         # 3. shapes
         if len(impl_l) != len(spec_l) or any(a.shape != s.shape for a, s in zip(impl_l, spec_l)):
             res["status"] = "violated"
@@ -517,6 +531,30 @@ class EqObligation(Obligation):
                                  f"vs symbolic {[_arr(x) for x in sym]}")
         except Exception as e:
             res["crosscheck"] = "skipped: " + "".join(traceback.format_exception_only(type(e), e)).strip()[:200]
+
+    def _eager_vs_traced(self, b, impl_l, spec_l, seed, it):
+        """None: the interpreter disagrees with JAX's own evaluation of the traced program (checker error).
+        Otherwise a replay record: whether the eager run violates the contract at the sampled inputs."""
+        try:
+            import contextlib, io
+            for k in range(6):
+                val = Valuation(b["inputs"], seed + 1 + 977 * k)
+                if it is None or _defined_at(it, val):
+                    break
+            arrays = [jnp.asarray(a, dtype=i.example().dtype) for a, i in zip(val.arrays, b["inputs"])]
+            with concrete(val.seed, getattr(val, "scale", 1.0)), contextlib.redirect_stdout(io.StringIO()):
+                closed = jax.make_jaxpr(b["fn"])(*arrays)
+                traced = [np.asarray(x, dtype=float) for x in jax.core.eval_jaxpr(closed.jaxpr, closed.consts, *arrays)]
+            sym = numeric(impl_l, val)
+            if not (len(traced) == len(sym) and all(close(x, y, 1e-6, 1e-8) for x, y in zip(traced, sym))):
+                return None
+            nat = self._native(b, val)
+            exp = numeric(spec_l, val)
+            bad = len(nat) != len(exp) or not all(close(x, y, 1e-6, 1e-8) for x, y in zip(nat, exp))
+            return dict(native_disagrees=bool(bad), seed=val.seed, inputs=_inputs(b, val), native=[_arr(x) for x in nat],
+                        expected=[_arr(x) for x in exp], mode="eager (concrete inputs, no enclosing trace)")
+        except Exception:
+            return None
 
     def _replay(self, res, b, spec, model, seed):
         """turn the refutation into a concrete native run of the real code"""
